@@ -278,6 +278,9 @@ def stream_plain(c, spec, tmp, rng, pending, nsteps):
         c.fail("model variables not available through get_var: %s" % missing, case)
         return None
     for v in spec["states"] + spec["algs"]:
+        if sim.alias_relation.canonical_signed(v["n"])[0] != v["n"]:
+            c.hit("plain/accidental-alias")  # e.g. `a1 = 1.0 * x1`: shares the canonical variable's nominal
+            continue
         if float(sim.get_variable_nominal(v["n"])) != v["nom"]:
             c.disagree("nominal of %s" % v["n"], case, v["nom"], float(sim.get_variable_nominal(v["n"])))
     start = rng.choice([0.0, 0.0, 3.0, -2.5, 10.0])
@@ -291,8 +294,11 @@ def stream_plain(c, spec, tmp, rng, pending, nsteps):
     r = call(sim.initialize)
     if r[0] == "raise":
         # every generated model has a consistent initial state: count, and let the model decide
+        # a nonlinear model may genuinely have no (reachable) solution: raising is what the property
+        # asks for then.  An affine generated model always has a consistent initial state.
         c.hit("plain/init-raise")
-        c.disagree("initialize() raised on a generated (consistent) model: " + r[1], case, "returned", "raise")
+        if affine_ok(spec):
+            c.disagree("initialize() raised on an affine (consistent) model: " + r[1], case, "returned", "raise")
         return None
     v0 = snap(sim, names)
     pv = {p["n"]: v0[p["n"]] for p in spec["params"]}
@@ -423,7 +429,9 @@ def stream_io(c, spec, tmp, rng, pending, nsteps, variant):
     istate = {}
     if variant == "csv":
         for st in spec["states"]:
-            if st["mode"] == "free" and rng.random() < 0.6:
+            # (a non-zero Modelica start attribute takes precedence over initial_state.csv, as documented
+            #  in SimulationProblem.initialize: only states without a start attribute are given one here)
+            if st["mode"] == "free0" and rng.random() < 0.7:
                 istate[st["n"]] = G.dy(rng, -3, 3) * st["nom"]
     else:
         # NaN gaps (after t0): the input keeps its previous value
@@ -459,7 +467,8 @@ def stream_io(c, spec, tmp, rng, pending, nsteps, variant):
     log = sim.c09_log
     if r[0] == "raise":
         c.hit("io/raise")
-        c.disagree("simulate() raised on a generated (consistent) model: " + r[1], case, "returned", "raise")
+        if affine_ok(spec):
+            c.disagree("simulate() raised on an affine (uniquely solvable) model: " + r[1], case, "returned", "raise")
         return
     c.count(("io", variant, spec["name"], spec["nonlinear"], len(spec["outputs"]), pre, bool(pover), bool(istate)))
     c.hit("io/" + variant)
@@ -609,7 +618,9 @@ def stream_xcheck(c, spec, tmp, rng, nsteps):
         sim.set_var(u, useq[u][0])
     r = call(sim.initialize)
     if r[0] == "raise":
-        c.disagree("initialize() raised on a generated (consistent) model: " + r[1], case, "returned", "raise")
+        c.hit("xcheck/sim-raise")
+        if affine_ok(spec):
+            c.disagree("initialize() raised on an affine (consistent) model: " + r[1], case, "returned", "raise")
         return
     log = [snap(sim, names)]
     for j in range(1, len(ts)):
@@ -672,7 +683,8 @@ def stream_xcheck(c, spec, tmp, rng, nsteps):
     r = call(opt.optimize)
     if r[0] == "raise" or not r[1]:
         c.hit("xcheck/opt-failed")
-        c.disagree("optimisation transcription with fixed controls did not solve: %s" % (r[1],), case, "ok", r[1])
+        if affine_ok(spec):
+            c.disagree("optimisation transcription with fixed controls did not solve: %s" % (r[1],), case, "ok", r[1])
         return
     res = opt.extract_results()
     nm = row_scale(spec)
@@ -926,9 +938,9 @@ def run(c):
     ]
     c.prove()
     rng = c.rng
-    n_plain = c.n(7, 60)
-    n_io = c.n(6, 60)
-    n_x = c.n(3, 30)
+    n_plain = c.n(10, 80)
+    n_io = c.n(10, 80)
+    n_x = c.n(4, 40)
     nsteps = 10
     k = 0
     specs_plain, specs_io, specs_x = [], [], []
